@@ -24,7 +24,7 @@ func init() {
 			"(e) a nil error is returned only with a non-nil selected value; (f) 'best' replaces its candidate only when the new score is greater (or equal), taking value, score and provider from the same response; " +
 			"(g) 'majority' succeeds only when the winning count >= threshold (exactly that relation) and counts each response under its own root; (h) what 'first' returns was received from the result channel; " +
 			"(i) one request goroutine per configured provider (range over the provider map without early exit) and the expected-response count is len of that map. " +
-			"Added with the third seeding round: (k) a received response is passed over in favour of the kept candidate only where a candidate exists (the first acceptable response is adopted); (l) no 64-bit accessor of an arbitrary-precision amount in the scoring code. Added with the fourth seeding round: (m) no strategy fan-out runs under an errgroup context; (n) the head-nearness bonus is withheld only on a failed lookup or head > attestation slot; (o) tallies of the majority strategies are per call. Added with the fifth seeding round: (p) a fan-out worker sends at most one message per request on its result/error channels (no path from one send to another), (q) whether a proposal's fee recipient is examined depends on the proposal's version only. Added with the sixth seeding round and the false-alarm regression: (r) in a selection loop a new leader (tally raised) re-assigns every loop-carried best* variable; (s) the context under which the requests are issued is not cancelled before the last collector; (x) no integer ratio converted to floating point afterwards. Added with the seventh seeding round: (t) a majority collector goes on waiting exactly while the largest tally is below n/2+1 (decided by evaluating the comparison for all small n and counts). NOT decided: optimality under latency (which responses have arrived by the decision point), score arithmetic, map-order tie-breaks, wall-clock bounds.",
+			"Added with the third seeding round: (k) a received response is passed over in favour of the kept candidate only where a candidate exists (the first acceptable response is adopted); (l) no 64-bit accessor of an arbitrary-precision amount in the scoring code. Added with the fourth seeding round: (m) no strategy fan-out runs under an errgroup context; (n) the head-nearness bonus is withheld only on a failed lookup or head > attestation slot; (o) tallies of the majority strategies are per call. Added with the fifth seeding round: (p) a fan-out worker sends at most one message per request on its result/error channels (no path from one send to another), (q) whether a proposal's fee recipient is examined depends on the proposal's version only. Added with the sixth seeding round and the false-alarm regression: (r) in a selection loop a new leader (tally raised) re-assigns every loop-carried best* variable; (s) the context under which the requests are issued is not cancelled before the last collector; (x) no integer ratio converted to floating point afterwards. Added with the seventh seeding round: (t) a majority collector goes on waiting exactly while the largest tally is below n/2+1 (decided by evaluating the comparison for all small n and counts). Added with the eighth seeding round: (i, extended) every trip round a provider fan-out loop passes the go statement; (t) is restricted to comparisons inside a loop; (y) C19.4 (the timeout getter) is taken over. NOT decided: optimality under latency (which responses have arrived by the decision point), score arithmetic, map-order tie-breaks, wall-clock bounds.",
 		Technique: "template conformance over all strategy packages on SSA and typed AST: context provenance through parameters/closures, select-arm analysis, cancel pairing by path queries, guard/edge-deletion with relation sets, loop-exit analysis",
 		Rule:      "one obligation per select/receive (a,b), per cancel function (c), per forwarding send (d), per success return (e,h), per score comparison (f), per threshold test (g), per fan-out loop (i)",
 	})
